@@ -155,12 +155,11 @@ Definition get_implicit_input_gen (retire : bool) (b : body) (pool_deposit key_d
 (* [ignore_props = true]: today's code, which never looks at txbody.voting_proposals;
    [false]: the repaired helper adds the proposals' deposits (same checked fold as the builder). *)
 Definition get_deposit_gen (ignore_props : bool) (b : body) (pool_deposit key_deposit : N) : result N :=
-  let* d := internal_get_deposit (b_certs b) pool_deposit key_deposit in
-  if ignore_props then Ok d
-  else match b_proposals b with
-       | None => Ok d
-       | Some ps => let* p := try_fold checked_add 0 ps in checked_add d p
-       end.
+  let* certificate_deposit := internal_get_deposit (b_certs b) pool_deposit key_deposit in
+  if ignore_props then Ok certificate_deposit
+  else
+    let* proposal_deposit := match b_proposals b with None => Ok 0 | Some ps => try_fold checked_add 0 ps end in
+    checked_add certificate_deposit proposal_deposit.
 
 Definition get_implicit_input := get_implicit_input_gen helper_refunds_pool_retirement.
 Definition get_deposit := get_deposit_gen helper_ignores_proposals.
